@@ -315,6 +315,10 @@ func (v *v0ProtocolMarshaler) unmarshalHeaders(reader io.Reader) (map[string]str
 			fmt.Sprintf("frugal: error reading protocol headers in unmarshalHeaders reading header size: %s", err))
 	}
 	size := int32(binary.BigEndian.Uint32(buff))
+	if size < 0 {
+		return nil, thrift.NewTProtocolExceptionWithType(thrift.INVALID_DATA,
+			fmt.Errorf("frugal: invalid v0 protocol headers size %d", size))
+	}
 	buff = make([]byte, size)
 	if _, err := io.ReadFull(reader, buff); err != nil {
 		if e, ok := err.(thrift.TTransportException); ok && e.TypeId() == TRANSPORT_EXCEPTION_END_OF_FILE {
